@@ -18,6 +18,40 @@ def optImg (nx ny : Nat) (f : Nat → Nat → Option Float) : String :=
 def gridOut (nx ny : Nat) (f : Nat → Nat → Float) : String :=
   sFs ((List.range nx).flatMap fun i => (List.range ny).map fun j => f i j)
 
+def pExt (s : String) : Ext Float :=
+  if s == "ninf" then .ninf else if s == "pinf" then .pinf else .fin (pF s)
+
+def extF : Ext Float → Float
+  | .fin v => v
+  | .ninf => -(1.0 / 0.0)
+  | .pinf => 1.0 / 0.0
+
+partial def parsePE : List String → Option (PE × List String)
+  | "P" :: i :: r => some (.prior (pN i), r)
+  | "N" :: q :: r => some (.num (pQ q), r)
+  | "B" :: r => some (.bad, r)
+  | "neg" :: r => do let (a, r) ← parsePE r; pure (.neg a, r)
+  | op :: r => do
+      let (a, r) ← parsePE r
+      let (b, r) ← parsePE r
+      match op with
+      | "add" => pure (.add a b, r)
+      | "sub" => pure (.sub a b, r)
+      | "mul" => pure (.mul a b, r)
+      | "div" => pure (.div a b, r)
+      | "pow" => pure (.pow a b, r)
+      | _ => none
+  | [] => none
+
+def ratF (q : Rat) : Float := Float.ofInt q.num / Float.ofNat q.den
+
+def showBuild (r : Except PErr (Option PT)) : String :=
+  match r with
+  | .ok (some t) => t.show
+  | .ok none => "bad"
+  | .error .typeError => "err:TypeError"
+  | .error .zeroDivision => "err:ZeroDivisionError"
+
 def step (line : String) : String :=
   match (line.trimAscii.toString.splitOn " ").filter (· ≠ "") with
   -- C19 ---------------------------------------------------------------
@@ -80,6 +114,39 @@ def step (line : String) : String :=
         let s := xs.foldl Welford.push Welford.init
         (s.mean, Float.sqrt s.var)
       sFs (res.map (·.1) ++ res.map (·.2))
+  -- C14 ---------------------------------------------------------------
+  | ["uniform", lo, hi, g, p] =>
+      match mkUniform (pExt lo) (pExt hi) (if g == "none" then none else some (pF g)) with
+      | none => "err:ParameterSpecificationError"
+      | some u => sFs [extF (u.lnprob (pF p)), u.prob (pF p), u.guess, u.scaleFactor]
+  | ["gaussian", mu, sd, p] =>
+      match mkGaussian (pF mu) (pF sd) with
+      | none => "err:ParameterSpecificationError"
+      | some g => sFs [extF (g.lnprob (pF p)), g.prob (pF p), g.mu, g.scaleFactor]
+  | ["bgauss", mu, sd, lo, hi, p] =>
+      match mkBoundedGaussian (pF mu) (pF sd) (pExt lo) (pExt hi) with
+      | none => "err:ParameterSpecificationError"
+      | some g => sFs [extF (g.lnprob (pF p)), g.prob (pF p), g.mu, g.scaleFactor]
+  | "sample" :: lo :: hi :: k :: rest =>
+      let vals := (rest.take (pN k)).map pF
+      let draws := (rest.drop (pN k)).map pF
+      let g : GaussP Float := ⟨0.0, 1.0, pExt lo, pExt hi⟩
+      match sampleLoop g.outside 10000 vals draws with
+      | some r => sFs r
+      | none => "dry"
+  | "build" :: toks =>
+      match parsePE toks with
+      | some (e, []) => showBuild (build e)
+      | _ => "bad-op"
+  | "evalbuild" :: g0 :: g1 :: g2 :: toks =>
+      match parsePE toks with
+      | some (e, []) =>
+        match build e with
+        | .ok (some t) =>
+          let g : Nat → Float := fun i => if i == 0 then pF g0 else if i == 1 then pF g1 else pF g2
+          sFs [t.eval g ratF Float.pow, e.eval g ratF Float.pow]
+        | r => showBuild r
+      | _ => "bad-op"
   | ["genfailures"] => toString translationFailures
   | _ => "bad-op"
 
